@@ -92,6 +92,12 @@ def main(tier, replay=None):
         rep.coverage["named_deviation_out_of_sync_reachable"] = bool(refuted)
         if not refuted:
             rep.machinery("LUPrecondSync.cfg: AlwaysInSync was not refuted (the named deviation is not reachable in the model)")
+        if tier == "thorough":
+            import subprocess
+            r = subprocess.run([common.SPECS + "/apalache/run_lu.sh"], capture_output=True, text=True)
+            rep.coverage["apalache"] = [l for l in r.stdout.splitlines() if l.startswith("APALACHE")]
+            if r.returncode != 0:
+                rep.machinery("apalache inductive check failed: %s" % r.stdout[-400:])
         words = [b["ops"] for b in des.payloads("BEH")]
         reps = 1 if tier == "quick" else 4
         tid = 0
